@@ -63,6 +63,7 @@ type FuncContract struct {
 	Props       []string
 	Trusted     bool
 	Inline      bool
+	InlineCallees map[string]bool // `inline <callee>`: calls to that callee from this function are inlined although it has a contract
 	Opaque      bool // never inlined, no contract: calls havoc memory and results (listed as unspecified callee)
 	Pure        bool
 	Alloc       *Clause
@@ -274,7 +275,14 @@ func (fc *FuncContract) addClause(word, rest, where string) error {
 	case "trusted":
 		fc.Trusted = true
 	case "inline":
-		fc.Inline = true
+		if name := strings.TrimSpace(rest); name != "" {
+			if fc.InlineCallees == nil {
+				fc.InlineCallees = map[string]bool{}
+			}
+			fc.InlineCallees[name] = true
+		} else {
+			fc.Inline = true
+		}
 	case "opaque":
 		fc.Opaque = true
 	case "alloc":
